@@ -1,8 +1,294 @@
-import Casket.Model.TLSGroup
-import Casket.Spec.TLSGroup
+import Casket.Proofs.TLSGroup
 import Casket.Generated.TLSDefaults
-namespace Casket.Props.C06
+/-
+C06 — TLS settings follow the SNI-matched site; no TLS/plaintext mixing.   (partial: crypto/tls)
 
-theorem C06_placeholder : True := trivial
+Statements only; helper lemmas live in Casket/Proofs/TLSGroup.lean.
+
+`pipeline` is the model of SetDefaultTLSParams → MakeTLSConfig → configGroup.getConfig, i.e. of
+what the GetConfigForClient callback of a listener answers for a ClientHello; it is tied to the Go
+code by the stream `c06.select`.  `serveTLS` adds the strict SNI = Host branch of serveHTTP
+(stream `c06.snihost`).  What crypto/tls then does with the chosen tls.Config (version
+negotiation, certificate request) and which certificate certmagic presents are NOT modelled;
+stream `c06.handshake` explores them with real in-memory handshakes.
+-/
+namespace Casket.Props.C06
+open Casket.TLSGroup Casket.TLSSpec
+open Casket.VHost (Bytes lower hostCands)
+
+/-- The whole judged predicate: for every list of per-site TLS settings, every server name and
+local address, the model's answer gets the verdict "ok" — mixes / unreadable CAs / same-key
+conflicts are rejected, a plaintext set stays plaintext, and a consistent set answers every
+hello with the settings of the most specific site (defaults filled in). -/
+theorem C06_model_verdict_ok (aesni : Bool) (raw : List Cfg) (sni : Bytes) (la : Option Bytes) :
+    verdict aesni raw sni la (pipeline aesni raw sni la) = "ok" := by
+  unfold verdict
+  by_cases hdom : inDomain raw = true
+  · simp only [hdom, Bool.not_true, Bool.false_eq_true, if_false]
+    by_cases hmix : mixed raw = true
+    · obtain ⟨n, hn⟩ := pipeline_mixed aesni raw sni la hmix
+      simp [hmix, hn]
+    · simp only [hmix, if_false]
+      by_cases hdis : raw.all (!·.enabled) = true
+      · simp [hdis, pipeline_plain aesni raw sni la hdis]
+      · simp only [hdis, if_false]
+        have hen : raw.all (·.enabled) = true := by
+          rw [List.all_eq_true]
+          intro c hc
+          cases hce : c.enabled with
+          | true => rfl
+          | false =>
+            exfalso
+            apply hmix
+            unfold mixed
+            simp only [Bool.and_eq_true, List.any_eq_true, Bool.not_eq_true']
+            refine ⟨?_, ⟨c, hc, hce⟩⟩
+            apply Classical.byContradiction
+            intro hno
+            apply hdis
+            rw [List.all_eq_true]
+            intro d hd
+            cases hde : d.enabled with
+            | false => rfl
+            | true => exact absurd ⟨d, hd, hde⟩ hno
+        have hne : raw ≠ [] := by
+          intro h; apply hdis; rw [h]; rfl
+        by_cases hca : caMissing raw = true
+        · obtain ⟨n, hn⟩ := pipeline_missing_ca aesni raw sni la hen hne hca
+          simp [hca, hn]
+        · simp only [hca, if_false]
+          have hca' : caMissing raw = false := by simpa using hca
+          by_cases hconf : conflicting aesni raw = true
+          · simp only [hconf, if_true]
+            obtain ⟨c0, rest, hraw⟩ : ∃ c0 rest, raw = c0 :: rest := by
+              cases raw with
+              | nil => exact absurd rfl hne
+              | cons a b => exact ⟨a, b, rfl⟩
+            have hmk := makeTLS_enabled aesni raw c0 rest hraw hen hca' hdom
+            have hnot : ¬ ∃ g', loopS (raw.map (steppedOf aesni)) 0 [] = .ok g' := by
+              rw [loopS_ok_iff, pairOK_steppedOf, hconf]; simp
+            cases hl : loopS (raw.map (steppedOf aesni)) 0 [] with
+            | ok g' => exact absurd ⟨g', hl⟩ hnot
+            | error j =>
+              rw [hl] at hmk
+              simp [pipeline, hmk]
+          · simp only [hconf, if_false]
+            exact selectVerdict_pipeline aesni raw sni la hen hne hca' hdom (by simpa using hconf)
+  · simp [hdom]
+
+/-- No TLS/plaintext mixing: a list of configs that do not agree on `Enabled` is rejected by
+`MakeTLSConfig` (any configs, not only defaulted ones) … -/
+theorem C06_mixed_rejected (aesni : Bool) (cfgs : List Cfg) (h : mixed cfgs = true) :
+    ∃ e, makeTLS aesni cfgs = .error e :=
+  makeTLS_mixed aesni cfgs h
+
+/-- … and so is the site set it comes from, whatever the hello. -/
+theorem C06_mixed_sites_rejected (aesni : Bool) (raw : List Cfg) (sni : Bytes) (la : Option Bytes)
+    (h : mixed raw = true) : ∃ n, pipeline aesni raw sni la = .error n :=
+  pipeline_mixed aesni raw sni la h
+
+/-- Two TLS sites that share an SNI key (`0.0.0.0`, `::` and the empty host share one) but not
+their protocol range / ciphers / curves / ALPN / client-certificate policy are rejected. -/
+theorem C06_incompatible_same_name_rejected (aesni : Bool) (raw : List Cfg) (sni : Bytes) (la : Option Bytes)
+    (hdom : inDomain raw = true) (hen : raw.all (·.enabled) = true) (hca : caMissing raw = false)
+    (hconf : conflicting aesni raw = true) : ∃ n, pipeline aesni raw sni la = .error n := by
+  have hne : raw ≠ [] := by intro h; rw [h] at hconf; cases hconf
+  obtain ⟨c0, rest, hraw⟩ : ∃ c0 rest, raw = c0 :: rest := by
+    cases raw with
+    | nil => exact absurd rfl hne
+    | cons a b => exact ⟨a, b, rfl⟩
+  have hmk := makeTLS_enabled aesni raw c0 rest hraw hen hca hdom
+  have hnot : ¬ ∃ g', loopS (raw.map (steppedOf aesni)) 0 [] = .ok g' := by
+    rw [loopS_ok_iff, pairOK_steppedOf, hconf]; simp
+  cases hl : loopS (raw.map (steppedOf aesni)) 0 [] with
+  | ok g' => exact absurd ⟨g', hl⟩ hnot
+  | error j => rw [hl] at hmk; exact ⟨2, by simp [pipeline, hmk, Err.cls]⟩
+
+/-- A consistent TLS site set (all enabled, CAs readable, no same-key conflict): whenever the
+callback answers with a definite config, it is the config `wanted` names — the last site
+declared under the first declared key among: the server name, the name with 1, 2, … leading
+labels replaced by `*`, the catch-all key (for an empty name the local address first) — and
+the settings are exactly that site's own with defaults filled in. -/
+theorem C06_sni_most_specific (aesni : Bool) (raw : List Cfg) (sni : Bytes) (la : Option Bytes)
+    (hdom : inDomain raw = true) (hen : raw.all (·.enabled) = true) (hne : raw ≠ [])
+    (hca : caMissing raw = false) (hconf : conflicting aesni raw = false)
+    (i : Nat) (b : Built) (hp : pipeline aesni raw sni la = .cfg i b) :
+    (∀ j, wanted raw sni la = some j → i = j) ∧ ∃ c, raw[i]? = some c ∧ b = effective aesni c := by
+  have hv := selectVerdict_pipeline aesni raw sni la hen hne hca hdom hconf
+  rw [hp] at hv
+  simp only [selectVerdict] at hv
+  cases hc : raw[i]? with
+  | none => rw [hc] at hv; simp at hv
+  | some c =>
+    rw [hc] at hv
+    simp only [] at hv
+    have hset : ∀ (h : settingsVerdict aesni c b = "ok"), b = effective aesni c := by
+      intro h
+      unfold settingsVerdict at h
+      split at h
+      · simp at h
+      · split at h
+        · simp at h
+        · split at h
+          · simp at h
+          · split at h
+            · simp at h
+            · rename_i hne'; simpa using hne'
+    cases hw : wanted raw sni la with
+    | none =>
+      rw [hw] at hv
+      exact ⟨fun j hj => (nomatch hj), c, rfl, hset hv⟩
+    | some j =>
+      rw [hw] at hv
+      simp only [] at hv
+      by_cases hij : i = j
+      · subst hij
+        simp only [bne_self_eq_false, Bool.false_eq_true, if_false] at hv
+        exact ⟨fun j' hj' => (Option.some.inj hj'), c, rfl, hset hv⟩
+      · have : (i != j) = true := by simpa using hij
+        simp [this] at hv
+
+/-- …and the random failover ("any config") happens only for names no site matches. -/
+theorem C06_failover_only_unmatched (aesni : Bool) (raw : List Cfg) (sni : Bytes) (la : Option Bytes)
+    (hdom : inDomain raw = true) (hen : raw.all (·.enabled) = true) (hne : raw ≠ [])
+    (hca : caMissing raw = false) (hconf : conflicting aesni raw = false)
+    (hp : pipeline aesni raw sni la = .any) : wanted raw sni la = none := by
+  have hv := selectVerdict_pipeline aesni raw sni la hen hne hca hdom hconf
+  rw [hp] at hv
+  simp only [selectVerdict] at hv
+  cases hw : wanted raw sni la with
+  | none => rfl
+  | some j => rw [hw] at hv; simp at hv
+
+/-- What `wanted` means without a local-address match: the first candidate key (name, wildcarded
+name by increasing number of `*` labels, catch-all) that some site declares, no earlier
+candidate being declared by any site. -/
+theorem C06_wanted_is_first_declared (raw : List Cfg) (sni : Bytes) (j : Nat)
+    (h : wanted raw sni none = some j) :
+    ∃ k before after, hostCands (normalizedName sni) ++ [[]] = before ++ k :: after ∧
+      (∀ k' ∈ before, keyDeclared raw k' = false) ∧ keyDeclared raw k = true ∧ lastIdx raw k 0 = some j := by
+  unfold wanted at h
+  simp only [Option.bind_none, ite_self] at h
+  unfold specKey at h
+  cases hf : List.find? (keyDeclared raw) (hostCands (normalizedName sni) ++ [[]]) with
+  | none => rw [hf] at h; cases h
+  | some k =>
+    rw [hf] at h
+    obtain ⟨hd, before, after, hs, hb⟩ := List.find?_eq_some_iff_append.mp hf
+    exact ⟨k, before, after, hs, fun k' hk' => by simpa using hb k' hk', hd, h⟩
+
+/-- TLS 1.2 is the minimum unless the site configures otherwise, TLS 1.3 the maximum. -/
+theorem C06_default_min_tls12 (aesni : Bool) (c : Cfg) :
+    (effective aesni c).minV = (if c.minV = 0 then tls12 else c.minV) ∧
+    (effective aesni c).maxV = (if c.maxV = 0 then tls13 else c.maxV) ∧
+    (setDefaults aesni c).minV = (if c.minV = 0 then tls12 else c.minV) := ⟨rfl, rfl, rfl⟩
+
+/-- `buildStandardTLSConfig` always puts TLS_FALLBACK_SCSV first (any config, defaulted or not),
+and offers `acme-tls/1`. -/
+theorem C06_scsv_first (aesni : Bool) (c c' : Cfg) (b : Built) (h : build aesni c = some (c', b)) :
+    b.ciphers.head? = some scsv ∧ acmeALPN ∈ b.nextProtos := by
+  unfold build at h
+  split at h
+  · cases h
+  · simp only [Option.some.injEq, Prod.mk.injEq] at h
+    obtain ⟨_, rfl⟩ := h
+    constructor
+    · simp only []
+      generalize (if (dedup c.ciphers []).isEmpty then preferredDefaultCiphers aesni else dedup c.ciphers []) = cs
+      by_cases hh : cs.head? = some scsv
+      · simp [hh]
+      · simp [hh]
+    · simp only []
+      split
+      · rename_i hc; simpa using hc
+      · simp
+
+/-- Strict SNI: a request that reaches the chain of a site which demands client certificates
+(and has not switched the check off) over TLS was made under the same name as its Host. -/
+theorem C06_clientauth_sni_host_agree (sites : List Casket.VHost.Site) (cfgs : List Cfg)
+    (r : Casket.VHost.Req) (sni : Bytes) (i : Nat) (c : Cfg)
+    (hs : serveTLS sites cfgs r (some sni) = .site i) (hc : cfgs[i]? = some c)
+    (hauth : c.clientAuth ≠ 0) (hon : c.disableSNIMatching = false) :
+    lower sni = lower (Casket.VHost.stripPort r.host) := by
+  unfold serveTLS at hs
+  cases hr : Casket.VHost.route sites r with
+  | notFound st => rw [hr] at hs; cases hs
+  | site j p =>
+    rw [hr] at hs
+    simp only [] at hs
+    cases hcj : cfgs[j]? with
+    | none =>
+      rw [hcj] at hs
+      simp only [Served.site.injEq] at hs
+      subst hs; rw [hc] at hcj; cases hcj
+    | some c' =>
+      rw [hcj] at hs
+      simp only [] at hs
+      split at hs
+      · cases hs
+      · rename_i hf
+        simp only [Served.site.injEq] at hs
+        subst hs
+        rw [hc] at hcj
+        cases hcj
+        unfold strictSNIForbidden at hf
+        simp only [hon, Bool.not_false, Option.isSome_some, Bool.and_self, Bool.true_and, Option.getD_some,
+          Bool.and_eq_true, bne_iff_ne, ne_eq, not_and, Decidable.not_not] at hf
+        exact hf hauth
+
+/-- The same as a judged predicate over `serveTLS` (stream `c06.snihost`). -/
+theorem C06_snihost_model_verdict_ok (sites : List Casket.VHost.Site) (cfgs : List Cfg)
+    (r : Casket.VHost.Req) (sni : Option Bytes) :
+    sniVerdict cfgs r sni (serveTLS sites cfgs r sni) = "ok" := by
+  unfold sniVerdict
+  cases hs : serveTLS sites cfgs r sni with
+  | forbidden => rfl
+  | notFound st => rfl
+  | site i =>
+    cases sni with
+    | none => rfl
+    | some name =>
+      simp only []
+      cases hc : cfgs[i]? with
+      | none => rfl
+      | some c =>
+        simp only []
+        by_cases hauth : c.clientAuth = 0
+        · simp [hauth]
+        · cases hon : c.disableSNIMatching with
+          | true => simp
+          | false =>
+            have := C06_clientauth_sni_host_agree sites cfgs r name i c hs hc hauth hon
+            simp [this]
+
+/-- The defaults of the model are the ones in the source (regenerated on every run). -/
+theorem C06_defaults_regenerated :
+    Casket.Generated.defaultCiphers = defaultCiphers ∧
+    Casket.Generated.defaultCiphersNonAESNI = defaultCiphersNonAESNI ∧
+    Casket.Generated.defaultCurves = defaultCurves ∧
+    Casket.Generated.defaultMinVersion = tls12 ∧ Casket.Generated.defaultMaxVersion = tls13 ∧
+    Casket.Generated.fallbackSCSV = scsv ∧
+    Casket.Generated.catchAllAliases.map (fun s => s.toList.map Char.toNat) = [host0000, hostV6Any] ∧
+    Casket.Generated.supportedProtocols.map (·.2) = [tls10, tls11, tls12, tls13] := by
+  decide
+
+/-! Non-vacuity and tests on literals (labelled: tests, not the general claims). -/
+
+/-- a consistent set: `a.com` (TLS 1.3 only, client certs) and the catch-all -/
+def exA : Cfg := ⟨[97, 46, 99, 111, 109], true, tls13, tls13, [], [], false, 4, [0], [], false⟩
+def exAny : Cfg := ⟨[], true, 0, 0, [], [], false, 0, [], [], false⟩
+
+example : inDomain [exA, exAny] = true ∧ [exA, exAny].all (·.enabled) = true ∧ caMissing [exA, exAny] = false ∧
+    conflicting true [exA, exAny] = false := by decide
+
+/-- SNI `A.COM` is governed by site 0, `b.org` by the catch-all with minimum TLS 1.2 -/
+example : (match pipeline true [exA, exAny] [65, 46, 67, 79, 77] none with | .cfg i b => (i, b.minV, b.clientAuth) | _ => (9, 0, 0)) = (0, tls13, 4) := by decide
+example : (match pipeline true [exA, exAny] [98, 46, 111, 114, 103] none with | .cfg i b => (i, b.minV, b.clientAuth) | _ => (9, 0, 0)) = (1, tls12, 0) := by decide
+
+/-- the repaired alias class: `:443` and `0.0.0.0:443` with different settings are now rejected -/
+example : pipeline true [exAny, { exA with hostname := host0000 }] [] none = .error 2 := by decide
+
+/-- TLS + plaintext on one listener -/
+example : mixed [exA, { exAny with enabled := false }] = true := by decide
 
 end Casket.Props.C06
